@@ -5,6 +5,8 @@ use super::generic;
 mod dct;
 mod transform;
 pub use transform::transform_varblocks;
+#[cfg(jxl_oxide_verif)]
+pub use transform::{verif_dct_2d, verif_transform};
 
 pub fn adaptive_lf_smoothing_impl(
     width: usize,
